@@ -536,6 +536,8 @@ func (t *tcode) computeImpure() {
 						if ex.impure {
 							direct[key] = true
 						}
+					} else if _, isExt := extFuncs[k]; isExt {
+						// called through the Ext structure: a total function there, whatever the generated root of the same name is
 					} else if _, ok := t.L.funcs[k]; ok {
 						calls[key] = append(calls[key], k)
 					}
